@@ -65,7 +65,9 @@ CHECKS = {
    text="Every string of the C06/C07 spaces is parsed under catch_unwind with overflow checks on, and every accepted string is evaluated on a 12-document panel through all public entry "
         "points and must return Ok; the integer cube (all triples over 0, +-1, +-(2^53-1), +-(2^53-2), +-2^53, i64 limits, beyond i64) goes through the parser and, inside the I-JSON range, "
         "through programmatically built queries; a depth ladder runs each nesting construct (parentheses, negations, nested filters, function calls, segments, ||/&& chains, unions, "
-        "document depth under descendant segments) at depths 8..32768 in isolated subprocesses with an 8 MiB stack and a wall-clock horizon.",
+        "document depth under descendant segments) at depths 8..32768 in isolated subprocesses with an 8 MiB stack and a wall-clock horizon; size ladders (wide arrays / objects, long names / strings, "
+        "wide equality) - in the thorough tier also with a debug build of jsonpath-rust; ladders for nesting shapes whose cost must stay polynomial (depth 8..32, 15 s horizon); regular-expression stress "
+        "patterns and nesting ladders over every depth 1..300; queries and name selectors built directly from the public model types (ill-typed function expressions included).",
    design="4.C08", note="bounds: the enumerated spaces, the cube values, the ladder rungs; asymptotic claims are out of reach; stack exhaustion findings are identified by (construct, first failing rung)",
    technique="exhaustive enumeration of bounded input spaces under panic / abort / timeout observation (subprocess isolation for stack exhaustion)"),
  "C05": dict(
